@@ -18,10 +18,10 @@ EXPLANATION = (
 def run(ctx):
     repo = ctx.repo
     T = K.types(repo)
-    r02a(ctx, repo, T)
-    r02b(ctx, repo, T)
-    r02c(ctx, repo, T)
-    r02d(ctx, repo, T)
+    ctx.each(r02a, ctx, repo, T)
+    ctx.each(r02b, ctx, repo, T)
+    ctx.each(r02c, ctx, repo, T)
+    ctx.each(r02d, ctx, repo, T)
 
 
 def _is_one(e):
